@@ -61,11 +61,13 @@ const (
 	fBlankTextHash  // white-space-only text + the hash of another text: refused (not a hash-only request)
 	fPaddedTextHash // text with leading/trailing white space + the hash of exactly those bytes: executes
 	fBadJSON        // a body that is not JSON (POST) / an extensions parameter that is not JSON (GET): refused
+	fTextLongHash   // text + a hash that STARTS with the text's digest but is longer: refused, registers nothing
+	fBadEscapeHash  // GET: a query parameter with a malformed %-escape + the hash of another text: refused (POST: text + wrong hash)
 	numForms
 )
 
 func (f form) String() string {
-	return [...]string{"text", "text+hash", "text+wrong-hash", "hash-only", "malformed-ext", "wrong-version", "unknown-hash-only", "no-hash", "no-version", "text+no-hash", "blank-text+hash", "padded-text+hash", "bad-json"}[f]
+	return [...]string{"text", "text+hash", "text+wrong-hash", "hash-only", "malformed-ext", "wrong-version", "unknown-hash-only", "no-hash", "no-version", "text+no-hash", "blank-text+hash", "padded-text+hash", "bad-json", "text+long-hash", "bad-escape+hash"}[f]
 }
 
 type op struct {
@@ -164,7 +166,7 @@ func step(state int, o op, out outcome) (bool, int) {
 		return out.Kind == "exec" && out.Text == o.Text, state
 	case fTextHash:
 		return out.Kind == "exec" && out.Text == o.Text, state | 1<<o.Text
-	case fTextWrongHash, fMalformed, fWrongVersion, fNoHashText, fBlankTextHash, fBadJSON:
+	case fTextWrongHash, fMalformed, fWrongVersion, fNoHashText, fBlankTextHash, fBadJSON, fTextLongHash, fBadEscapeHash:
 		return out.Kind == "rejected", state
 	case fPaddedTextHash:
 		// registers the padded bytes under their own hash, which no other form asks for
@@ -297,6 +299,15 @@ func Run(rc *core.RunCtx) {
 		if (o.Form == fTextOnly || o.Form == fTextHash || o.Form == fTextWrongHash) && t.Bool(1, 6, "plain-server") {
 			o.Plain = true
 		}
+		if o.Form == fBadEscapeHash {
+			o.Hash = (o.Text + 1 + t.Choose(len(texts)-1, "other2")) % len(texts)
+			for j := i - 1; j >= 0; j-- {
+				if opsList[j].Form == fTextHash && opsList[j].Text != o.Text {
+					o.Hash = opsList[j].Text
+					break
+				}
+			}
+		}
 		if o.Form == fBlankTextHash {
 			// the hash of a text registered earlier in the history, when there is one
 			for j := i - 1; j >= 0; j-- {
@@ -337,6 +348,10 @@ func Run(rc *core.RunCtx) {
 		case fNoVersion:
 			query = ""
 			ext = map[string]any{"persistedQuery": map[string]any{"sha256Hash": hashOf(texts[o.Text])}}
+		case fTextLongHash:
+			ext = map[string]any{"persistedQuery": map[string]any{"version": 1, "sha256Hash": hashOf(texts[o.Text]) + []string{"00", hashOf(texts[o.Hash]), "zz"}[o.Text%3]}}
+		case fBadEscapeHash:
+			ext = map[string]any{"persistedQuery": map[string]any{"version": 1, "sha256Hash": hashOf(texts[o.Hash])}}
 		case fNoHashText:
 			if o.Text%2 == 0 {
 				ext = map[string]any{"persistedQuery": map[string]any{"version": 1}}
@@ -373,6 +388,10 @@ func Run(rc *core.RunCtx) {
 				target := "/query?" + q.Encode()
 				if o.Form == fBadJSON {
 					target = "/query?query=" + url.QueryEscape(query) + "&extensions=%7Bnot-json"
+				}
+				if o.Form == fBadEscapeHash {
+					b, _ := json.Marshal(ext)
+					target = "/query?query=" + []string{"%zz", "%2", "a;b%"}[o.Text%3] + url.QueryEscape(query) + "&extensions=" + url.QueryEscape(string(b))
 				}
 				hr := httptest.NewRequest("GET", target, nil).WithContext(ctx)
 				if o.Plain {
